@@ -839,8 +839,6 @@ def pattern_const_f32(context, tree):
 
 
 @isa.pattern("stm", "CJMPI32(reg, reg)", size=4)
-@isa.pattern("stm", "CJMPI16(reg, reg)", size=4)
-@isa.pattern("stm", "CJMPI8(reg, reg)", size=4)
 def pattern_cjmpi(context, tree, c0, c1):
     op, yes_label, no_label = tree.value
     opnames = {"<": Blt, ">": Bgt, "==": Beq, "!=": Bne, ">=": Bge, "<=": Ble}
@@ -850,8 +848,6 @@ def pattern_cjmpi(context, tree, c0, c1):
     context.emit(jmp_ins)
 
 
-@isa.pattern("stm", "CJMPU8(reg, reg)", size=4)
-@isa.pattern("stm", "CJMPU16(reg, reg)", size=4)
 @isa.pattern("stm", "CJMPU32(reg, reg)", size=4)
 def pattern_cjmpu(context, tree, c0, c1):
     op, yes_label, no_label = tree.value
@@ -867,6 +863,36 @@ def pattern_cjmpu(context, tree, c0, c1):
     jmp_ins = B(no_label.name, jumps=[no_label])
     context.emit(Bop(c0, c1, yes_label.name, jumps=[yes_label, jmp_ins]))
     context.emit(jmp_ins)
+
+
+# The branch instructions compare all bits of the registers. The high bits
+# of a register with an 8 or 16 bit value are not defined, extend first:
+@isa.pattern("stm", "CJMPI8(reg, reg)", size=12)
+def pattern_cjmpi8(context, tree, c0, c1):
+    a = sign_extend_reg(context, c0, 8)
+    b = sign_extend_reg(context, c1, 8)
+    pattern_cjmpi(context, tree, a, b)
+
+
+@isa.pattern("stm", "CJMPI16(reg, reg)", size=12)
+def pattern_cjmpi16(context, tree, c0, c1):
+    a = sign_extend_reg(context, c0, 16)
+    b = sign_extend_reg(context, c1, 16)
+    pattern_cjmpi(context, tree, a, b)
+
+
+@isa.pattern("stm", "CJMPU8(reg, reg)", size=12)
+def pattern_cjmpu8(context, tree, c0, c1):
+    a = zero_extend_reg(context, c0, 8)
+    b = zero_extend_reg(context, c1, 8)
+    pattern_cjmpu(context, tree, a, b)
+
+
+@isa.pattern("stm", "CJMPU16(reg, reg)", size=12)
+def pattern_cjmpu16(context, tree, c0, c1):
+    a = zero_extend_reg(context, c0, 16)
+    b = zero_extend_reg(context, c1, 16)
+    pattern_cjmpu(context, tree, a, b)
 
 
 @isa.pattern("reg", "ADDU32(reg, reg)", size=2)
